@@ -472,7 +472,7 @@ func runCase(run *lib.Run, w *world, tc tcase, idx int, r *lib.RNG) outcome {
 }
 
 func main() {
-	run := lib.Start("C20", "large transfers (downloads and uploads, plain requests and CONNECT tunnels, 1/2/4/32/64 connections sharing one listener) through listeners with read-limit / write-limit pairs from {0,1,2,4} MiB/s and low limits (8 KiB/s, 24 KiB/s, 512 KiB/s; transfers whose limiter waits last seconds are abandoned after 9 s and judged on what was delivered), each on its own proxy instance, run concurrently; clients (origin/target for uploads) record (time since before the first connect, cumulative bytes) on every read; decisive: cumulative bytes <= burst + rate*t + 64 KiB + 64 KiB per connection at every sample (sound lower bound on duration, load can only make it safer); unlimited directions must finish in under half the time throttling at the other direction's rate would need, judged against a no-limit control; payloads are offset streams compared byte for byte; distinct = (limits, direction, via, connections) signatures")
+	run := lib.Start("C20", "large transfers (downloads and uploads, plain requests and CONNECT tunnels, 1/2/4/32/64 connections sharing one listener) through listeners with read-limit / write-limit pairs from {0,1,2,4} MiB/s and low limits (2 KiB/s, 24 KiB/s, 128 KiB/s; transfers whose limiter waits last seconds are abandoned after 9 s and judged on what was delivered), each on its own proxy instance, run concurrently; clients (origin/target for uploads) record (time since before the first connect, cumulative bytes) on every read; decisive: cumulative bytes <= burst + rate*t + 64 KiB + 64 KiB per connection at every sample (sound lower bound on duration, load can only make it safer); unlimited directions must finish in under half the time throttling at the other direction's rate would need, judged against a no-limit control; payloads are offset streams compared byte for byte; distinct = (limits, direction, via, connections) signatures")
 	root := run.RNG()
 	w := &world{}
 	w.origin = lib.MustOrigin("origin", "127.0.0.1:0", nil, w.originHandler)
@@ -508,10 +508,10 @@ func main() {
 		{name: "R24K-tunnel-dl", r: 24 << 10, dir: "download", via: "tunnel", conns: 1, size: 4*MiB + 240<<10, limited: true},
 		{name: "W24K-tunnel-ul", w: 24 << 10, dir: "upload", via: "tunnel", conns: 1, size: 4*MiB + 240<<10, limited: true},
 		// waits of many seconds per copy buffer / deep reservation queues; abandoned after 9 s
-		{name: "R8K-tunnel-dl-capped", r: 8 << 10, dir: "download", via: "tunnel", conns: 1, size: 6 * MiB, limited: true, capT: 9 * time.Second},
-		{name: "W8K-tunnel-ul-capped", w: 8 << 10, dir: "upload", via: "tunnel", conns: 1, size: 6 * MiB, limited: true, capT: 9 * time.Second},
-		{name: "R512K-64conns-dl-capped", r: 512 << 10, dir: "download", via: "http", conns: 64, size: 256 << 10, limited: true, capT: 9 * time.Second},
-		{name: "W512K-64conns-ul-capped", w: 512 << 10, dir: "upload", via: "tunnel", conns: 64, size: 256 << 10, limited: true, capT: 9 * time.Second},
+		{name: "R2K-tunnel-dl-capped", r: 2 << 10, dir: "download", via: "tunnel", conns: 1, size: 6 * MiB, limited: true, capT: 9 * time.Second},
+		{name: "W2K-tunnel-ul-capped", w: 2 << 10, dir: "upload", via: "tunnel", conns: 1, size: 6 * MiB, limited: true, capT: 9 * time.Second},
+		{name: "R128K-64conns-dl-capped", r: 128 << 10, dir: "download", via: "http", conns: 64, size: 256 << 10, limited: true, capT: 9 * time.Second},
+		{name: "W128K-64conns-ul-capped", w: 128 << 10, dir: "upload", via: "tunnel", conns: 64, size: 256 << 10, limited: true, capT: 9 * time.Second},
 	}
 	if !run.Quick() {
 		// very low limits: a single copy buffer costs more than a second of tokens
